@@ -166,14 +166,14 @@ def _copy_with_sidecars(src, dst):
 class Exec:
     """Outcome of executing one op on the subject file."""
 
-    __slots__ = ("outcome", "killed", "fired", "calls", "callbacks", "syscalls", "sql_log", "sys_log",
+    __slots__ = ("outcome", "killed", "fired", "calls", "callbacks", "syscalls", "rows", "sql_log", "sys_log",
                  "raw_modified", "journal_left", "lock_held", "peer_outcome", "peer_blocked")
 
     def __init__(self):
         self.outcome = None
         self.killed = False
         self.fired = False
-        self.calls = self.callbacks = self.syscalls = 0
+        self.calls = self.callbacks = self.syscalls = self.rows = 0
         self.sql_log = []
         self.sys_log = []
         self.raw_modified = None
@@ -223,6 +223,8 @@ def _make_plan(knobs, fault, record=False):
                 plan.a_exc = fault.get("exc", "OperationalError")
         elif fault["layer"] == "B":
             plan.b_at = fault["at"]
+        elif fault["layer"] == "R":
+            plan.r_at = fault["at"]
     return plan
 
 
@@ -371,8 +373,9 @@ def execute(db, argv, knobs, fault, directory, record=False, count_sys=False):
                     sysfault.disarm()
             ex.calls = plan.calls
             ex.callbacks = plan.callbacks
+            ex.rows = plan.rows
             ex.sql_log = plan.sql_log
-            if layer in ("A", "B"):
+            if layer in ("A", "B", "R"):
                 ex.fired = plan.fired is not None
             elif layer == "L":
                 ex.fired = (peer is not None) if fault.get("acquire_at") is None else ex.fired
@@ -407,6 +410,7 @@ LAYER_KINDS = {
     "A": ["raise:OperationalError", "raise:OperationalError", "raise:IntegrityError", "raise:MemoryError",
           "raise:KeyboardInterrupt", "kill", "kill"],
     "B": ["interrupt"],
+    "R": ["read_error"],
     "C": ["eio", "enospc", "short", "kill_before", "kill_after", "kill_before", "kill_after", "kill_before",
           "kill_after", "kill_mid"],
     "L": ["shared", "reserved", "exclusive"],
@@ -631,7 +635,7 @@ class Trial:
         if self.fault_rate is None:
             self.fault_rate = rng.choice([0.0, 0.3, 0.5, 0.5, 0.7])
         if self.layers is None:
-            pool = ["A", "B", "L"] + (["C"] if sysfault.available() else [])
+            pool = ["A", "B", "L", "R"] + (["C"] if sysfault.available() else [])
             self.layers = sorted(x for x in pool if rng.random() < 0.75) or ["A"]
 
     # -- load ---------------------------------------------------------------
@@ -694,6 +698,12 @@ class Trial:
             if n <= 0:
                 return None
             return {"layer": "B", "at": rng.randrange(n), "of": n, "every": self.knobs.get("b_every")}
+        if layer == "R":
+            n = twin_ex.rows
+            if n <= 0:
+                return None
+            at = rng.randrange(n) if rng.random() < 0.6 else rng.randrange(max(0, n - 40), n)
+            return {"layer": "R", "at": at, "of": n}
         if layer == "C":
             n = twin_ex.syscalls
             if n <= 0:
@@ -978,7 +988,7 @@ class Trial:
             st["ops_fault_free"] += 1
         else:
             layer = fault["layer"]
-            kind = fault.get("kind") or fault.get("lock") or ("concurrent_" + fault["peer_op"] if layer == "P" else "interrupt")
+            kind = fault.get("kind") or fault.get("lock") or ("concurrent_" + fault["peer_op"] if layer == "P" else ("read_error" if layer == "R" else "interrupt"))
             if layer == "L" and fault.get("release_at") is not None:
                 kind += "_released_midstep"
             if layer == "L" and fault.get("acquire_at") is not None:
@@ -989,7 +999,7 @@ class Trial:
             if ex.fired or ex.killed:
                 st["fault_fired_%s_%s" % (layer, kind)] += 1
                 phase = "mid"
-                if layer in ("A", "B", "C") and fault.get("of"):
+                if layer in ("A", "B", "C", "R") and fault.get("of"):
                     frac = fault["at"] / float(fault["of"])
                     phase = "early" if frac < 0.34 else ("mid" if frac < 0.67 else "late")
                 self.distinct.add("%s|%s|%s:%s|%s|%s" % (self.state_key(), op, layer, kind, phase, where))
@@ -1467,6 +1477,12 @@ def sweep(seed, directory, step, prefix_steps, spec=None, knobs=None, layers=("A
             if k < 0:
                 continue
             plans.append({"layer": "B", "at": k, "of": twin_ex.callbacks, "every": trial.knobs.get("b_every")})
+    if "R" in layers and twin_ex.rows:
+        n_rows = twin_ex.rows
+        stride = max(1, n_rows // 30)
+        for k in sorted(set(range(0, n_rows, stride)) | {n_rows - 1, n_rows - 2, max(0, n_rows - 130)}):
+            if k >= 0:
+                plans.append({"layer": "R", "at": k, "of": n_rows})
     if "L" in layers:
         for lock in LAYER_KINDS["L"]:
             plans.append({"layer": "L", "lock": lock})
@@ -1489,8 +1505,11 @@ def sweep(seed, directory, step, prefix_steps, spec=None, knobs=None, layers=("A
                 plans.append({"layer": "P", "at": k, "of": n_calls, "peer_op": peer_op,
                               "peer_argv": op_argv(peer_op, trial.knobs, trial.load_argv)})
     if max_positions and len(plans) > max_positions:
-        keep = [p_ for p_ in plans if p_["layer"] == "P"]
-        rest = [p_ for p_ in plans if p_["layer"] != "P"]
+        keep = [p_ for p_ in plans if p_["layer"] in ("P", "R")]
+        if len(keep) > max_positions // 2:
+            keep = [p_ for p_ in keep if p_["layer"] == "P"] + rng.sample(
+                [p_ for p_ in keep if p_["layer"] == "R"], max(4, max_positions // 3))
+        rest = [p_ for p_ in plans if p_["layer"] not in ("P", "R")]
         plans = keep + rng.sample(rest, max(0, max_positions - len(keep)))
     if shard:
         plans = plans[shard[0]::shard[1]]
@@ -1579,7 +1598,7 @@ def sweep_job(job):
 def _sweep_job(job):
     with runner.RunDir() as directory:
         stats, distinct, violations, sample = sweep(
-            job["seed"], directory, job["step"], job["prefix"], layers=job.get("layers", ("A", "C", "B", "L", "P")),
+            job["seed"], directory, job["step"], job["prefix"], layers=job.get("layers", ("A", "C", "B", "L", "P", "R")),
             knobs=None, field=job.get("field"), max_positions=job.get("max_positions"),
             spec=job.get("spec"), hot=bool(job.get("hot")), size=job.get("size"), shard=job.get("shard"))
     stats = collections.Counter(stats)
@@ -1642,7 +1661,8 @@ RULE = (
     "histories: seeded random command histories (8-22 ops: the five mutating steps in any order, premature / "
     "repeated / rejected attempts, read-only commands, load-again) over seeded synthetic datasets and knobs, each op "
     "optionally carrying one fault (statement error or kill at API call k; SQLite interrupt at VM callback k; "
-    "EIO / ENOSPC / short write / kill-before / kill-after at write-class syscall k; a peer holding a SHARED / "
+    "a failed read of result row k; EIO / ENOSPC / short write / kill-before / kill-after at write-class syscall k; "
+    "a peer holding a SHARED / "
     "RESERVED / EXCLUSIVE lock), positions drawn from the counts of a fault-free twin run of the same op on a copy; "
     "sweeps: for sampled (dataset, pre-state, step) every API-call position x {error, kill}, every write-class "
     "syscall x {EIO, ENOSPC, kill-before, kill-after, short}, a stride of interrupt positions and the three lock "
@@ -1698,7 +1718,7 @@ def check(tier, only=None):
                     for sh in range(cfg["large_shards"]):
                         jobs.append(("sweep", {"seed": runner.derive_seed(seed, "C20", "largesweep", rep, ci),
                                                "step": step, "prefix": list(prefix), "max_positions": cfg["large_max"],
-                                               "field": field, "size": size, "layers": ("A", "C", "B"), "large": True,
+                                               "field": field, "size": size, "layers": ("A", "C", "B", "R"), "large": True,
                                                "shard": (sh, cfg["large_shards"]),
                                                "want_samples": rep == 0 and ci == 0 and sh == 0}))
         jobs.sort(key=lambda j: (0 if j[1].get("large") else 1) if j[0] == "sweep" else 2)
